@@ -12,6 +12,13 @@ CLAIMS = {
         "real); aliases, handler tables and the call-level signature of 'put' are reflective scan obligations.",
    note="Trusted: pyvc's encoding of Python semantics, z3; SBlock.set_output contract (C02) with assumption A-C02; float = real "
         "arithmetic; amounts are numbers."),
+ 'C16': dict(
+   text="Event.send (filter loop with an inductive invariant over the pipeline fold), not_from_undef, Edge, Delta, IfOutput, "
+        "IfNotIitialized, every DataEdit edit closure (add, setdefault, add_output, copy, rename, delete, permit, modify), the eight "
+        "DataEdit methods and DataEdit.__call__ are executed from the real AST against contracts stating the dictionary algebra / "
+        "truth tables of the property; chain = left-to-right composition and veto-absorption are solver lemmas proved by induction.",
+   note="Trusted: pyvc encoding, z3; interface assumptions on user filters/edit functions (deterministic, do not raise, str-keyed "
+        "mappings); mappings are built-in dicts; control blocks given by name are resolved (C15); Delta over reals."),
  'C17': dict(
    text="_Validation._validate/__init__, Input.__init__/_event_put/init_from_value and InputExp.__init__/cond_put/calc_output are "
         "executed from the real AST against contracts stating the property (accepted iff allowed & check & schema-does-not-raise, "
